@@ -75,13 +75,13 @@ func scrambleData(dvar string) *Node {
 
 type condGen struct {
 	hostH bool // a host builtin is used as a handler somewhere
-	r    *Rand
-	vars []string
-	fpN  int
-	prN  int
-	symN int
-	inH  int // handler nesting depth at this point of the text
-	bud  int
+	r     *Rand
+	vars  []string
+	fpN   int
+	prN   int
+	symN  int
+	inH   int // handler nesting depth at this point of the text
+	bud   int
 }
 
 func (g *condGen) fp(n *Node) *Node {
